@@ -87,6 +87,14 @@ func (m *Module) WriteTo(w io.Writer) (n int64, err error) {
 	if err := m.AssignMetadataIDs(); err != nil {
 		panic(fmt.Errorf("unable to assign metadata IDs of module; %v", err))
 	}
+	// Assign local IDs of every function before anything is printed: a global
+	// initializer or an earlier function may refer to an unnamed basic block of
+	// a function that is printed later (blockaddress).
+	for _, f := range m.Funcs {
+		if err := f.AssignIDs(); err != nil {
+			panic(fmt.Errorf("unable to assign IDs of function %s; %v", f.Ident(), err))
+		}
+	}
 	// Source filename.
 	if len(m.SourceFilename) > 0 {
 		// 'source_filename' '=' Name=StringLit
